@@ -125,7 +125,7 @@ func (s *optionsSc) Plan(w *World) {
 		if t.Draw(2) == 1 {
 			var r []string
 			for i, n := 0, t.Range(1, 3); i < n; i++ {
-				r = append(r, []string{"10.9.0.0/16,10.0.0.1", "0.0.0.0/0,10.0.0.254", "192.0.2.128/25,10.0.0.2", "10.1.2.3/32,10.0.0.3", "172.16.0.0/12,10.0.0.4"}[t.Pick(5)])
+				r = append(r, []string{"10.9.0.0/16,10.0.0.1", "0.0.0.0/0,10.0.0.254", "192.0.2.128/25,10.0.0.2", "10.1.2.3/32,10.0.0.3", "172.16.0.0/12,10.0.0.4", "10.1.35.7/20,10.0.0.5", "172.20.5.0/12,10.0.0.6", "192.0.2.77/25,10.0.0.7"}[t.Pick(8)])
 			}
 			add("staticroute", r...)
 		}
